@@ -17,6 +17,9 @@ type SubscriptionService struct {
 	// pub sub stuff
 	Mu   sync.Mutex
 	Subs map[uint32]*Subscription
+
+	// lastID is the most recently assigned subscription id; protected by Mu
+	lastID uint32
 }
 
 // get rid of all references to a subscription and all monitored items that are pointed at this subscription.
@@ -55,7 +58,12 @@ func (s *SubscriptionService) CreateSubscription(sc *uasc.SecureChannel, r ua.Re
 	s.Mu.Lock()
 	defer s.Mu.Unlock()
 
-	newsubid := uint32(len(s.Subs)) + 1
+	// ids must be unique among the subscriptions that are still in use
+	newsubid := s.lastID + 1
+	for _, used := s.Subs[newsubid]; used || newsubid == 0; _, used = s.Subs[newsubid] {
+		newsubid++
+	}
+	s.lastID = newsubid
 
 	if s.srv.cfg.logger != nil {
 		s.srv.cfg.logger.Info("New Sub %d for %v", newsubid, sc.RemoteAddr())
